@@ -2,6 +2,7 @@ package main
 
 import (
 	"strconv"
+	"strings"
 
 	"github.com/keybase/saltpack"
 )
@@ -39,6 +40,44 @@ func splitPieces(r *SplitMix, msg []byte) [][]byte {
 		out = [][]byte{nil}
 	}
 	return out
+}
+
+// bigPieces splits a chunk-size message into Write calls in the ways that exercise the
+// buffer discipline around the 1 MiB block: a Write landing on a non-empty buffer, a
+// block completed exactly, many small writes, a one-byte tail.
+func bigPieces(pattern int, msg []byte) [][]byte {
+	n := len(msg)
+	cut := func(at ...int) [][]byte {
+		var out [][]byte
+		prev := 0
+		for _, a := range at {
+			if a < prev {
+				a = prev
+			}
+			if a > n {
+				a = n
+			}
+			out = append(out, msg[prev:a])
+			prev = a
+		}
+		return append(out, msg[prev:])
+	}
+	switch pattern % 5 {
+	case 0:
+		return cut(1)
+	case 1:
+		return cut(n - 1)
+	case 2:
+		var at []int
+		for a := 32768; a < n; a += 32768 {
+			at = append(at, a)
+		}
+		return cut(at...)
+	case 3:
+		return cut(mib/2, mib, mib+1)
+	default:
+		return cut(mib-1, mib)
+	}
 }
 
 func signCase(mode, v string, sk []byte, pieces [][]byte, rng []byte, oneshot bool) Case {
@@ -92,6 +131,15 @@ func genSignRoundtrip(h *H, modes []string) {
 					msg := h.rng.Bytes(k*mib + d)
 					h.tag("len:chunk-boundary")
 					h.Run(signCase(mode, v, h.randSigKey(), [][]byte{msg}, h.rng.Bytes(16), true))
+					// the same lengths streamed in several Write calls
+					pats := []int{k + d + 1, k + d + 3}
+					if thorough {
+						pats = []int{0, 1, 2, 3, 4}
+					}
+					for _, pt := range pats {
+						h.tag("len:chunk-boundary-streamed")
+						h.Run(signCase(mode, v, h.randSigKey(), bigPieces(pt, msg), h.rng.Bytes(16), false))
+					}
 				}
 			}
 		}
@@ -211,7 +259,21 @@ func genDetachedMutations(h *H, n int) {
 		b := h.makeSigned("det", sk, v, msg2)
 		at := h.makeSigned("att", sk, v, msg)
 		sig, m, mut := a.wire, msg, "none"
-		switch h.rng.Intn(10) {
+		switch h.rng.Intn(13) {
+		case 10: // the signature value re-encoded one byte longer (valid 64 bytes first)
+			oa, _ := splitObjects(a.wire)
+			sn, _, _ := mpParse(oa[1])
+			sig, mut = joinObjects([][]byte{oa[0], mpEnc(nBin(append(cloneBytes(sn.Bytes), byte(h.rng.Next()))))}), "sig-value-extended"
+		case 11, 12: // a signature value ending in 0x00 re-encoded without that byte (sign until one occurs)
+			for try := 0; try < 200; try++ {
+				aa := h.makeSigned("det", sk, v, msg)
+				oa, _ := splitObjects(aa.wire)
+				sn, _, _ := mpParse(oa[1])
+				if sn.Bytes[len(sn.Bytes)-1] == 0 {
+					sig, mut = joinObjects([][]byte{oa[0], mpEnc(nBin(sn.Bytes[:len(sn.Bytes)-1]))}), "sig-value-zero-tail-dropped"
+					break
+				}
+			}
 		case 0:
 		case 1: // every-bit style: flip one message bit
 			if len(m) > 0 {
@@ -237,8 +299,12 @@ func genDetachedMutations(h *H, n int) {
 			sig, mut = mutateWire(h.rng, a.wire, b.wire)
 		}
 		h.tag("mut:" + mut)
-		h.Run(Case{Op: "verify_detached", A: map[string]string{"vd": "any", "ring": blist([][]byte{pk}), "msg": hx(m), "sig": hx(sig),
-			"truth": blist([][]byte{msg, msg2}), "mut": mut}})
+		cs := Case{Op: "verify_detached", A: map[string]string{"vd": "any", "ring": blist([][]byte{pk}), "msg": hx(m), "sig": hx(sig),
+			"truth": blist([][]byte{msg, msg2}), "mut": mut}}
+		if strings.HasPrefix(mut, "sig-value-") {
+			cs.A["must_reject"], cs.A["why"] = "detached-accepts-changed-signature-value", "the 64-byte signature value was changed ("+mut+")"
+		}
+		h.Run(cs)
 	}
 }
 
